@@ -130,54 +130,81 @@ Definition link_at (kept_rev : list obj) (p : option nat) (o : obj) : list obj :
 Definition replace_payload (old : obj) (d : dobj) : obj :=
   match old with Obj _ n m i x => Obj d n m i x end.
 
+(* what the loop body decides for one child (topology.c:1577-1629) *)
+Inductive verdict :=
+| VMergeKeep                 (* try_merge_group kept the existing object: return it *)
+| VMergeEqual                (* same type, same sets: merge_insert_equal, return the existing object *)
+| VReplace (ret_new : bool)  (* existing Group overwritten with OBJ *)
+| VRecurse                   (* OBJ strictly included in CHILD: go deeper *)
+| VFail                      (* intersection without inclusion: put-back *)
+| VDifferent                 (* disjoint: CHILD stays, maybe record putp *)
+| VTake (memory_too : bool). (* OBJ contains CHILD: CHILD moves below OBJ *)
+
+Definition verdict_of (dms : list N) (dm_new : bool) (o c : dobj) : verdict :=
+  match cmp_sets o c with
+  | EQUAL =>
+      match try_merge_group c o (gp_in dms c) dm_new with
+      | MKeepOld => VMergeKeep
+      | MReplace rn => VReplace rn
+      | MNone =>
+          match type_cmp o c with
+          | EQUAL => VMergeEqual
+          | INCLUDED => VRecurse
+          | INTERSECTS => VFail
+          | DIFFERENT => VDifferent
+          | CONTAINS => VTake true
+          end
+      end
+  | INCLUDED => VRecurse
+  | INTERSECTS => VFail
+  | DIFFERENT => VDifferent
+  | CONTAINS => VTake false
+  end.
+
+Definition next_putp (putp : option nat) (kept_rev : list obj) (o c : obj) : option nat :=
+  match putp with
+  | None => if obj_first_lt (odata o) (odata c) then Some (List.length kept_rev) else None
+  | Some p => Some p
+  end.
+
+(* One pass over the children list of CUR = Obj d _ m i x.  [rec] is the recursive call on a child
+   ("OBJ is strictly contained in some child of CUR, go deeper"). *)
+Section Loop.
+  Variable rec : obj -> obj -> obj * outcome.
+  Variable dms : list N.
+  Variable dm_new : bool.
+  Variable d : dobj.
+  Variables m i x : list obj.
+
+  Fixpoint ins_loop (l : list obj) (kept_rev taken : list obj) (putp : option nat) (o : obj) {struct l} : obj * outcome :=
+    match l with
+    | [] =>
+        (* end of the list: link OBJ (with the taken children) at putp, or last *)
+        (Obj d (link_at kept_rev putp (with_children o taken)) m i x, OInserted)
+    | c :: tl =>
+        let stop (c' : obj) (r : outcome) := (Obj d (rev kept_rev ++ c' :: tl) m i x, r) in
+        match verdict_of dms dm_new (odata o) (odata c) with
+        | VMergeKeep => stop c (OMergedKeep (o_gp (odata c)))
+        | VMergeEqual => stop c (OMergedEqual (o_gp (odata c)))
+        | VReplace rn => stop (replace_payload c (odata o)) (OReplaced rn)
+        | VRecurse => let '(c', r) := rec c o in stop c' r
+        | VFail =>
+            (* put-back: from putp if known, else from the start of CUR's list *)
+            let full := rev kept_rev ++ c :: tl in
+            let k := match putp with Some p => p | None => O end in
+            (Obj d (firstn k full ++ putback (skipn k full) taken) m i x, OFail)
+        | VDifferent => ins_loop tl (c :: kept_rev) taken (next_putp putp kept_rev o c) o
+        | VTake false => ins_loop tl kept_rev (taken ++ [c]) putp o
+        | VTake true =>
+            (* equal sets: OBJ also steals CHILD's memory children (overwriting its own memory_first_child) *)
+            ins_loop tl kept_rev (taken ++ [with_mchildren c []]) putp (with_mchildren o (omch c))
+        end
+    end.
+End Loop.
+
 (* The main routine.  [dms] = gp_index of the Groups that have dont_merge set;
    [dm_new] = dont_merge of OBJ.  Returns the new CUR and the outcome. *)
 Fixpoint insert_by_cpuset (dms : list N) (dm_new : bool) (cur : obj) (o : obj) {struct cur} : obj * outcome :=
   match cur with
-  | Obj d n m i x =>
-      (fix loop (l : list obj) (kept_rev taken : list obj) (putp : option nat) (o : obj) {struct l} : obj * outcome :=
-         match l with
-         | [] =>
-             (* end of the list: link OBJ (with the taken children) at putp, or last *)
-             (Obj d (link_at kept_rev putp (with_children o taken)) m i x, OInserted)
-         | c :: tl =>
-             let setres := cmp_sets (odata o) (odata c) in
-             let stop (c' : obj) (r : outcome) := (Obj d (rev kept_rev ++ c' :: tl) m i x, r) in
-             let take (memory_too : bool) :=
-               (* CONTAINS: unlink CHILD from CUR, append it to OBJ's children; when the sets are equal
-                  OBJ also steals CHILD's memory children (overwriting its own memory_first_child) *)
-               if memory_too
-               then loop tl kept_rev (taken ++ [with_mchildren c []]) putp (with_mchildren o (omch c))
-               else loop tl kept_rev (taken ++ [c]) putp o in
-             let different :=
-               loop tl (c :: kept_rev) taken
-                    (match putp with
-                     | None => if obj_first_lt (odata o) (odata c) then Some (List.length kept_rev) else None
-                     | Some p => Some p
-                     end) o in
-             let fail :=
-               (* put-back: from putp if known, else from the start of CUR's list *)
-               let full := rev kept_rev ++ c :: tl in
-               let k := match putp with Some p => p | None => O end in
-               (Obj d (firstn k full ++ putback (skipn k full) taken) m i x, OFail) in
-             match setres with
-             | EQUAL =>
-                 match try_merge_group (odata c) (odata o) (gp_in dms (odata c)) dm_new with
-                 | MKeepOld => stop c (OMergedKeep (o_gp (odata c)))
-                 | MReplace rn => stop (replace_payload c (odata o)) (OReplaced rn)
-                 | MNone =>
-                     match type_cmp (odata o) (odata c) with
-                     | EQUAL => stop c (OMergedEqual (o_gp (odata c)))
-                     | INCLUDED => let '(c', r) := insert_by_cpuset dms dm_new c o in stop c' r
-                     | INTERSECTS => fail
-                     | DIFFERENT => different
-                     | CONTAINS => take true
-                     end
-                 end
-             | INCLUDED => let '(c', r) := insert_by_cpuset dms dm_new c o in stop c' r
-             | INTERSECTS => fail
-             | DIFFERENT => different
-             | CONTAINS => take false
-             end
-         end) n [] [] None o
+  | Obj d n m i x => ins_loop (insert_by_cpuset dms dm_new) dms dm_new d m i x n [] [] None o
   end.
